@@ -142,6 +142,10 @@ Definition monotone_ok (isf : bool) (cs : list crec) : bool :=
       else true) gets) gets.
 
 (* ------------------------------------------------------------------ (C) search for a linearisation *)
+(* lazily: f is applied only until it answers true *)
+Fixpoint first_true {A} (f : A -> bool) (l : list A) : bool :=
+  match l with [] => false | x :: r => if f x then true else first_true f r end.
+
 Section Search.
 Variable S : Type.
 Variable step : S -> call -> option (S * option N).    (* new state, returned pattern of a read *)
@@ -167,18 +171,13 @@ Fixpoint lin_search (fuel : nat) (pend : list crec) (s : S) : bool :=
   | Datatypes.S f =>
       (* calls that never returned may take effect later or never *)
       if forallb (fun c => match c_res c with None => true | Some _ => false end) pend then true else
-      (fix try (l : list crec) : bool :=
-         match l with
-         | [] => false
-         | c :: r =>
-             if (if minimal c pend then
-                   match step s (c_call c) with
-                   | Some (s1, o) => if ret_ok c o then lin_search f (without c pend) s1 else false
-                   | None => false
-                   end
-                 else false)
-             then true else try r
-         end) pend
+      first_true (fun c =>
+         if minimal c pend then
+           match step s (c_call c) with
+           | Some (s1, o) => if ret_ok c o then lin_search f (without c pend) s1 else false
+           | None => false
+           end
+         else false) pend
   end.
 End Search.
 
@@ -194,12 +193,15 @@ Definition ctr_step_int (s : N) (c : call) : option (N * option N) :=
 Definition ctr_step_float (s : f64) (c : call) : option (f64 * option N) :=
   match c with
   | CInc => Some ((s + 1)%float, None)
-  | CAdd d | CFlush d => Some ((s + bits2f d)%float, None)
+  | CAdd d => Some ((s + bits2f d)%float, None)
+  | CFlush d => Some (if PrimFloat.eqb (bits2f d) 0 then s else (s + bits2f d)%float, None)   (* nothing accumulated: nothing to add *)
   | CGet => Some (s, Some (f2bits s))
   | CReset => Some (0%float, None)
   | _ => None
   end.
-Definition same_float (a b : N) : bool := N.eqb (f2bits (bits2f a)) (f2bits (bits2f b)).
+(* returned pattern a (as reported, NaN payloads canonicalised / 64 bits) is the specified canonical pattern b *)
+Definition same_float (a b : N) : bool := N.eqb (f2bits (bits2f a)) b.
+Definition same_int (a b : N) : bool := N.eqb (wrap64 a) b.
 
 Definition search_limit : nat := 9.
 Definition counter_call (c : call) : bool := is_inc c || is_get c || is_reset c.
@@ -212,7 +214,7 @@ Definition spec_c01 (isf : bool) (es : list event) : bool :=
   && monotone_ok isf cs
   && (if Nat.leb (length cs) search_limit then
         (if isf then lin_search f64 ctr_step_float same_float (Datatypes.S (length cs)) cs 0%float
-         else lin_search N ctr_step_int N.eqb (Datatypes.S (length cs)) cs 0%N)
+         else lin_search N ctr_step_int same_int (Datatypes.S (length cs)) cs 0%N)
       else true).
 
 (* ------------------------------------------------------------------ counters reached as children of a counter vector *)
